@@ -361,6 +361,24 @@ func c04Values(T *Tape, v primitive.ProtocolVersion) []c04Target {
 	add("Set<varchar>", set, []string{s, "b"}, func() interface{} { return new([]string) }, iface)
 	mp, _ := datacodec.NewMap(datatype.NewMap(datatype.Varchar, datatype.Int))
 	add("Map<varchar,int>", mp, map[string]int32{s: 1}, func() interface{} { return new(map[string]int32) }, func() interface{} { return new(map[string]interface{}) }, iface)
+	// maps whose key type has no comparable Go counterpart (inet, blob, collections): every destination,
+	// the free one (interface{}) in particular, where the codec has to pick the Go type itself
+	if mk, err := datacodec.NewMap(datatype.NewMap(datatype.Inet, datatype.Int)); err == nil {
+		add("Map<inet,int>", mk, map[string]int32{"10.0.0.1": int32(x)}, func() interface{} { return new(map[string]int32) }, iface)
+	}
+	if mk, err := datacodec.NewMap(datatype.NewMap(datatype.Blob, datatype.Varchar)); err == nil {
+		add("Map<blob,varchar>", mk, map[string]string{s: "v"}, func() interface{} { return new(map[string]string) }, iface)
+	}
+	if mk, err := datacodec.NewMap(datatype.NewMap(datatype.NewList(datatype.Int), datatype.Int)); err == nil {
+		add("Map<list<int>,int>", mk, map[[2]int32]int32{{1, int32(x)}: 7}, func() interface{} { return new(map[[2]int32]int32) }, iface)
+	}
+	if mk, err := datacodec.NewMap(datatype.NewMap(datatype.Varint, datatype.Uuid)); err == nil {
+		add("Map<varint,uuid>", mk, map[int64]primitive.UUID{x: {1, 2, 3}}, func() interface{} { return new(map[int64]primitive.UUID) }, iface)
+	}
+	setb, _ := datacodec.NewSet(datatype.NewSet(datatype.Blob))
+	add("Set<blob>", setb, [][]byte{[]byte(s), {}}, func() interface{} { return new([][]byte) }, iface)
+	lin, _ := datacodec.NewList(datatype.NewList(datatype.Inet))
+	add("List<inet>", lin, []net.IP{net.IPv4(1, 2, 3, 4).To4(), net.ParseIP("fe80::1")}, func() interface{} { return new([]net.IP) }, iface)
 	mp2, _ := datacodec.NewMap(datatype.NewMap(datatype.Int, datatype.NewList(datatype.Varchar)))
 	add("Map<int,list<varchar>>", mp2, map[int32][]string{1: {s}}, func() interface{} { return new(map[int32][]string) }, iface)
 	if v >= primitive.ProtocolVersion3 {
